@@ -26,7 +26,7 @@ WORKERS = {"quick": 4, "thorough": 16}
 WTESTS = {"groups": ['parse'], "tests": ['tests/dec', 'tests/decay/test_viewer.py']}
 REQUIRED = {**{f"char:{c}": 10 for c in L.ALPHABET_EXTRA}, **{f"bf-literal:{f}": 3 for f in ["1", "1.", ".25", "-0.8", "2E-3", "20.e-2", "+0.125"]},
             **{f"param-literal:{f}": 3 for f in ["1", "1.", ".5", "-0.8", "+3", "20.e12", "2E-4"]},
-            "word-param-that-python-float-would-read": 10, "returned-values-edited-then-asked-again": 20, "models-all-published": 1, "empty-block": 10, "repeated-mother-different-body": 10, "repeated-mother-identical-body": 10,
+            "word-param-that-python-float-would-read": 10, "line-with-model-alias+photos": 5, "line-with-model-alias": 10, "label-continuing-a-model-name": 10, "returned-values-edited-then-asked-again": 20, "models-all-published": 1, "empty-block": 10, "repeated-mother-different-body": 10, "repeated-mother-identical-body": 10,
             "tables>=4": 10, "tables>=8": 3, "line-without-daughters": 10, "photos-mixed-in-one-table": 10, "lines>=8": 3, "daughters>=5": 10,
             "defined-param": 10, "negated-defined-param": 5, "word-param": 10, "public-api-observation": 30, "corpus-file": 20, "second-parse-same-instance": 10, "file-constructor-same-path-rewritten": 10}
 ASSUMPTIONS = ["texts are in L_dec (DESIGN 2.1): labels are not numeric prefixes, reserved words or model-name + non-word suffix",
@@ -62,6 +62,15 @@ def gen_file(ctx):
         blocks.insert(r.randint(blocks.index(src) + 1, len(blocks)), dup)
     misc = [g.misc(r.choice(decgen.MISC_KINDS)) for _ in range(r.choice([0, 0, 2, 5]))]
     if r.random() < 0.3:
+        # a ModelAlias used on some lines (with and without the PHOTOS keyword): the line reports the model and parameters the alias stands for
+        al = {"k": "ModelAlias", "name": r.choice(["MyAliasA", "SLBKPOLE_DtoKlnu", "MA_1"]), "model": r.choice(g.models), "params": g.params(k=r.choice([0, 2, 3]))}
+        if L.label_ok(al["name"], g.models):
+            misc.append(al)
+            for b in blocks:
+                for ln in b["lines"]:
+                    if r.random() < 0.3:
+                        ln["model"], ln["params"] = al["name"], []
+    if r.random() < 0.3:
         misc.append({"k": "CopyDecay", "a": "CopyOf" + g.label(odd=False), "b": r.choice(blocks)["m"]})
     late_defs = [g.misc("Define") for _ in range(r.choice([0, 0, 1]))]
     stmts = decgen.interleave(r, stmts + late_defs, blocks, misc)
@@ -73,6 +82,7 @@ def gen_file(ctx):
 def classify(ctx, stmts):
     seen = {}
     ntab = 0
+    aliases_defined = {st["name"] for st in stmts if st["k"] == "ModelAlias"}
     for s in stmts:
         if s["k"] != "Decay":
             continue
@@ -95,6 +105,10 @@ def classify(ctx, stmts):
             if ("bf-literal:" + ln["bf"]) in REQUIRED:
                 ctx.hit("bf-literal:" + ln["bf"])
             _models_seen.add(ln["model"])
+            if ln["model"] in aliases_defined:
+                ctx.hit("line-with-model-alias" + ("+photos" if ln["photos"] else ""))
+            if any(d in decgen.EXT_LABELS for d in [s["m"], *ln["fs"]]):
+                ctx.hit("label-continuing-a-model-name")
             if not ln["fs"]:
                 ctx.hit("line-without-daughters")
             if len(ln["fs"]) >= 5:
